@@ -410,7 +410,7 @@ fn pop_indirect_body<const N: usize, const NI: usize, const NO: usize>(maxch: us
         assert!(priv_same(&q, &p0), "C03: failed poll changed driver-private state");
         assert!(dev_same(&b, &dev0), "C03: failed poll changed device-visible memory");
         let mut i = 0;
-        while i < MAXSH {
+        while i < MAXSTEP {
             assert!(unsafe { LG[i].live == lg0[i].live && LG[i].unshares == lg0[i].unshares }, "C04: failed poll unshared a buffer");
             i += 1;
         }
@@ -421,7 +421,7 @@ fn pop_indirect_body<const N: usize, const NI: usize, const NO: usize>(maxch: us
         assert!(q.num_used == p0.num_used - 1, "C03: descriptor count after pop must drop by one in indirect mode");
         let mine_n = if nb0 > 1 { nb0 + 1 } else { 1 };
         let mut i = 0;
-        while i < MAXSH {
+        while i < MAXSTEP {
             if i < lgn {
                 let mine = i >= g.eb[0] && i < g.eb[0] + mine_n;
                 let now = unsafe { LG[i] };
